@@ -458,6 +458,7 @@ pub fn run(ctx: &Ctx, rep: &mut Report) {
     run_list(rep, "max_growth_z", &gs, check_growth_sig);
     let sib = load_sib_corpus(&ctx.root);
     run_list(rep, "sample_in_ball_extremes", &sib, check_sib);
+    crate::props::history::run(ctx, rep, 2500, 60000);
 }
 
 pub fn replay(_ctx: &Ctx, sub: &str, case: &Value) -> Option<CheckResult> {
